@@ -1,15 +1,19 @@
 """C04 implementation runner: msdm.algorithms.lrtdp.LRTDP on generated proper MDPs.
 
 Nothing in /repo is subclassed or edited: the planner INSTANCE gets logging wrappers around
-its bound methods _bellman_update / _check_solved / _tear_down_plan_on, and an
-LRTDPEventListener counts trials.  The log is the operation sequence of the abstract
-machine of coq/model/LRTDP.v:
+its bound methods _bellman_update / _check_solved / _tear_down_plan_on (attached once; they
+survive across plan_on calls), and an LRTDPEventListener counts trials.  The log is the
+operation sequence of the abstract machine of coq/model/LRTDP.v:
    ["U", s, newV]            V[s] := max_a Q(s,a)            (every _bellman_update)
    ["A", s]                  absorbing successor marked solved in a trial
    ["C", s, flag, closed]    one _check_solved(s) call; closed in DFS order
                              (flag true: the states it labelled; flag false: the states it
                              re-updated, whose "U" entries follow the "C" entry)
 States are the generator's integers 0..n-1, actions its integer ids.
+
+A case is either a single problem ({"mdp": ...}) or a CHAIN ({"chain": [mdpA, mdpB, mdpA, ...]}):
+ONE planner object plans on the problems in turn (same state/action labels, different
+probabilities/rewards); the result is {"chain": [result per step]}.  Log state is reset per call.
 """
 import os, sys
 sys.path.insert(0, os.path.dirname(os.path.abspath(__file__)))
@@ -18,38 +22,33 @@ from build import *
 
 def one(case, pl):
     from msdm.algorithms.lrtdp import LRTDP, LRTDPEventListener
-    mc = case["mdp"]
-    mdp = build_mdp(mc)
-    n = mc["n"]
+    mdps = case["chain"] if "chain" in case else [case["mdp"]]
     hv = [fl(x) for x in case["heuristic"]]
-    counters = {"trials": 0, "steps": 0}
+    L = {}                       # per-plan_on log state (reset before every call)
 
     class Rec(LRTDPEventListener):
         def end_of_lrtdp_trial(self, localvars):
-            counters["trials"] += 1
+            L["counters"]["trials"] += 1
 
         def end_of_lrtdp_timestep(self, localvars):
-            counters["steps"] += 1
+            L["counters"]["steps"] += 1
 
     planner = LRTDP(heuristic=lambda s: hv[s], bellman_error_margin=fl(case["margin"]),
                     iterations=int(case["iterations"]), randomize_action_order=bool(case["randomize"]),
                     event_listener_class=Rec, seed=int(case["seed"]))
-    ops = []
-    known = set()
     maxops = int(case.get("max_log", 4000))
-    state = {"overflow": False}
 
     def emit(op):
-        if len(ops) < maxops:
-            ops.append(op)
+        if len(L["ops"]) < maxops:
+            L["ops"].append(op)
         else:
-            state["overflow"] = True
+            L["overflow"] = True
 
     def sync_absorbing():
         # states marked solved by the trial loop itself (absorbing successors)
         for s, v in list(planner.res.solved.items()):
-            if v and s not in known:
-                known.add(s)
+            if v and s not in L["known"]:
+                L["known"].add(s)
                 emit(["A", s])
 
     orig_update = planner._bellman_update
@@ -63,6 +62,7 @@ def one(case, pl):
 
     def chk(m, s):
         sync_absorbing()
+        ops = L["ops"]
         before = list(planner.res.solved.keys())
         mark = len(ops)
         emit(["C", s, None, None])
@@ -70,52 +70,59 @@ def one(case, pl):
         if flag:
             closed = [k for k in planner.res.solved.keys() if k not in before]
             for k in closed:
-                known.add(k)
+                L["known"].add(k)
         else:
             closed = [o[1] for o in ops[mark + 1:] if o[0] == "U"][::-1]
         if mark < len(ops):
             ops[mark] = ["C", s, bool(flag), closed]
         return flag
 
-    captured = {}
-
     def teardown(m, heuristic):
         sync_absorbing()
         res = planner.res
-        # the greedy action the planner itself computes at tear-down for the states it labelled
+        # greedy action recomputed from the FINAL table for the states the planner labelled
         # (only states with a recorded action order: no extra random draws)
-        captured["greedy"] = {s: planner.policy(m, s) for s in range(n)
-                              if res.solved[s] and s in res.action_orders}
+        L["greedy"] = {s: planner.policy(m, s) for s in range(L["n"])
+                       if res.solved[s] and s in res.action_orders}
         return orig_teardown(m, heuristic)
 
     planner._bellman_update = upd
     planner._check_solved = chk
     planner._tear_down_plan_on = teardown
-    res = planner.plan_on(mdp)
 
-    keys = [s for s in range(n) if s in res.V]
-    returned = []
-    for s in range(n):
-        d = [(a, pr) for a, pr in res.policy.action_dist(s).items() if pr != 0]
-        returned.append(d[0][0] if len(d) == 1 else None)
-    sa = getattr(res, "solved_action", None)
-    out = {
-        "n": n,
-        "touched": [s in res.V for s in range(n)],
-        "V": [fj(res.V[s]) for s in range(n)],            # default = heuristic for untouched states
-        "solved": [bool(res.solved[s]) for s in range(n)],
-        "action_orders": {str(s): list(v) for s, v in res.action_orders.items()},
-        "greedy": {str(s): a for s, a in captured["greedy"].items()},       # recomputed from the FINAL table
-        "returned_action": returned,                                        # what res.policy plays (None: not deterministic)
-        "solved_action": None if sa is None else {str(s): a for s, a in sa.items()},
-        "Q": {str(s): {str(a): fj(res.Q[s][a]) for a in mdp.actions(s)} for s in keys},
-        "policy": [[[a, fj(p)] for a, p in res.policy.action_dist(s).items()] for s in range(n)],
-        "initial_value": fj(res.initial_value),
-        "converged_attr": (str(res.converged) if hasattr(res, "converged") else "missing"),
-        "trials": counters["trials"], "steps": counters["steps"],
-        "ops": ops, "ops_overflow": state["overflow"],
-    }
-    return out
+    outs = []
+    for mc in mdps:
+        mdp = build_mdp(mc)
+        n = mc["n"]
+        L.clear()
+        L.update({"ops": [], "known": set(), "overflow": False, "greedy": {}, "n": n,
+                  "counters": {"trials": 0, "steps": 0}})
+        res = planner.plan_on(mdp)
+        keys = [s for s in range(n) if s in res.V]
+        returned = []
+        for s in range(n):
+            d = [(a, pr) for a, pr in res.policy.action_dist(s).items() if pr != 0]
+            returned.append(d[0][0] if len(d) == 1 else None)
+        sa = getattr(res, "solved_action", None)
+        outs.append({
+            "n": n,
+            "touched": [s in res.V for s in range(n)],
+            "V": [fj(res.V[s]) for s in range(n)],            # default = heuristic for untouched states
+            "solved": [bool(res.solved[s]) for s in range(n)],
+            "action_orders": {str(s): list(v) for s, v in res.action_orders.items()},
+            "greedy": {str(s): a for s, a in L["greedy"].items()},           # recomputed from the FINAL table
+            "returned_action": returned,                                     # what res.policy plays (None: not deterministic)
+            "solved_action": None if sa is None else {str(s): a for s, a in sa.items()},
+            "Q": {str(s): {str(a): fj(res.Q[s][a]) for a in mdp.actions(s)} for s in keys},
+            "policy": [[[a, fj(p)] for a, p in res.policy.action_dist(s).items()] for s in range(n)],
+            "initial_value": fj(res.initial_value),
+            "converged_attr": (str(res.converged) if hasattr(res, "converged") else "missing"),
+            "trials": L["counters"]["trials"], "steps": L["counters"]["steps"],
+            "ops": L["ops"], "ops_overflow": L["overflow"],
+        })
+    if "chain" in case:
+        return {"chain": outs}
+    return outs[0]
 
 
 if __name__ == "__main__":
